@@ -253,6 +253,61 @@ Section SerFail.
       destruct (await (fst (resolve a ar))); destruct Hs as [Hs|Hs]; inversion Hs; reflexivity.
   Qed.
 
+  Lemma serve_f_of_error (a : app C E) ar sel e :
+    app_encodable a -> serve a ar = RError e -> serve_f sel a ar = FError e.
+  Proof.
+    intros Henc Hs. unfold RelayModelF.serve_f. rewrite (resolve_f_eq a ar Henc).
+    unfold RelayModel.serve, observe in Hs. unfold observe_f.
+    destruct (await (fst (resolve a ar))); [discriminate | inversion Hs; reflexivity].
+  Qed.
+
+  (** arbitrary arguments — any counts, any byte strings as cursors — against the model the check
+      runs: never the panic outcome; rejected counts are one of the four argument errors; otherwise
+      an undecodable cursor is the error of its argument and a decodable one is a position [af] /
+      [bf] of the cursor order at which the answer is the full C09 answer *)
+  Theorem arbitrary_cursor_f (a : app C E) edges S ar sel :
+    app_ok C E ltb cur a edges S -> (forall e, In e S -> enc_ok e) ->
+    serve_f sel a ar <> FError EPanicked /\
+    (args_rejected (a_first ar) (a_last ar) = true ->
+       exists e, serve_f sel a ar = FError e /\
+                 (e = EFirstNegative \/ e = EBothFirstLast \/ e = ELastNegative \/ e = ENoCount)) /\
+    (args_rejected (a_first ar) (a_last ar) = false ->
+       serve_f sel a ar = FError EInvalidAfter \/ serve_f sel a ar = FError EInvalidBefore \/
+       exists af bf,
+         decode_arg C decode (a_after ar) EInvalidAfter = Ok af /\
+         decode_arg C decode (a_before ar) EInvalidBefore = Ok bf /\
+         response_ok C E ltb cur encode S af bf (a_first ar) (a_last ar) (serve a ar) /\
+         serve_f sel a ar = lift sel (serve a ar)).
+  Proof.
+    intros Happ Henc. pose proof (app_ok_encodable a edges S Happ Henc) as Hae.
+    destruct (args_rejected (a_first ar) (a_last ar)) eqn:Hrej.
+    - destruct (arg_errors C E ltb cur encode decode a ar Hrej) as [e [Hs He]].
+      pose proof (serve_f_of_error a ar sel e Hae Hs) as Hf.
+      split; [|split; [intros _; exists e; split; [exact Hf | exact He] | discriminate]].
+      rewrite Hf. destruct He as [-> | [-> | [-> | ->]]]; discriminate.
+    - assert (K : serve_f sel a ar = FError EInvalidAfter \/ serve_f sel a ar = FError EInvalidBefore \/
+                  exists af bf,
+                    decode_arg C decode (a_after ar) EInvalidAfter = Ok af /\
+                    decode_arg C decode (a_before ar) EInvalidBefore = Ok bf /\
+                    response_ok C E ltb cur encode S af bf (a_first ar) (a_last ar) (serve a ar) /\
+                    serve_f sel a ar = lift sel (serve a ar)).
+      { destruct (decode_arg C decode (a_after ar) EInvalidAfter) as [af|e1] eqn:Ha;
+          [destruct (decode_arg C decode (a_before ar) EInvalidBefore) as [bf|e2] eqn:Hb|].
+        - right. right. exists af, bf.
+          destruct (serve_f_ok a edges S ar af bf sel Happ Henc Hrej Ha Hb) as [Hok Hl]. auto.
+        - destruct (invalid_cursor_errors C E ltb cur encode decode a ar Hrej) as [Hs|Hs]; [right; eauto | |].
+          + left. exact (serve_f_of_error a ar sel _ Hae Hs).
+          + right. left. exact (serve_f_of_error a ar sel _ Hae Hs).
+        - destruct (invalid_cursor_errors C E ltb cur encode decode a ar Hrej) as [Hs|Hs]; [left; eauto | |].
+          + left. exact (serve_f_of_error a ar sel _ Hae Hs).
+          + right. left. exact (serve_f_of_error a ar sel _ Hae Hs). }
+      split; [|split; [discriminate | intros _; exact K]].
+      destruct K as [K | [K | [af [bf [_ [_ [[page [sp [Hs _]]] Hl]]]]]]].
+      + rewrite K. discriminate.
+      + rewrite K. discriminate.
+      + rewrite Hl, Hs. discriminate.
+  Qed.
+
   (** ** walks against the model the check runs, through a connection of any Direction *)
   Definition opt_warg {A} (o : option A) : warg A := match o with Some x => WVal x | None => WAbsent end.
 
